@@ -230,6 +230,11 @@ pub enum Op {
     /// `mut_request_transaction(holder).mut_agent()` instead of the agent itself, then ask the handle
     /// for its peer address: a handle names its transaction, whatever happens to the others meanwhile
     Via { holder: u8, inner: Box<Op> },
+    /// like `Via`, and afterwards ON THE SAME HANDLE one of cancel / cancel_retransmissions /
+    /// configure_timeout for the handle's transaction (`then` is an `Op::Cancel`, `Op::CancelRetrans` or
+    /// `Op::Configure`; its tid is ignored): a handle that was used to reach the agent is still a
+    /// handle on its transaction
+    ViaThen { holder: u8, inner: Box<Op>, then: Box<Op> },
     /// advance the virtual clock by a number of MICROseconds (changes the sub-millisecond phase)
     AdvanceUs(u64),
     /// move the virtual clock BACK by a number of milliseconds (a caller handing in a stale instant);
@@ -308,6 +313,7 @@ impl Op {
             Op::SendData { dest, len } => json!({"op": "send_data", "dest": dest, "len": len}),
             Op::Advance(ms) => json!({"op": "advance", "ms": ms}),
             Op::Via { holder, inner } => json!({"op": "via", "holder": holder, "inner": inner.to_json()}),
+            Op::ViaThen { holder, inner, then } => json!({"op": "via_then", "holder": holder, "inner": inner.to_json(), "then": then.to_json()}),
             Op::AdvanceUs(us) => json!({"op": "advance_us", "us": us}),
             Op::Rewind(ms) => json!({"op": "rewind", "ms": ms}),
         }
@@ -354,6 +360,7 @@ impl Op {
             "send_data" => Op::SendData { dest: u("dest")? as u8, len: u("len")? as u16 },
             "advance" => Op::Advance(u("ms")?),
             "via" => Op::Via { holder: u("holder")? as u8, inner: Box::new(Op::from_json(v.get("inner")?)?) },
+            "via_then" => Op::ViaThen { holder: u("holder")? as u8, inner: Box::new(Op::from_json(v.get("inner")?)?), then: Box::new(Op::from_json(v.get("then")?)?) },
             "advance_us" => Op::AdvanceUs(u("us")?),
             "rewind" => Op::Rewind(u("ms")?),
             _ => return None,
@@ -776,6 +783,9 @@ struct Eng<'c> {
     via: Option<usize>,
     /// what the handle said about its peer address after the routed call (None = handle's transaction gone)
     via_peer: Option<Option<SocketAddr>>,
+    /// what to do on the same handle after the routed call (ViaThen), and whether it was done
+    via_then: Option<Op>,
+    via_then_done: bool,
     /// transaction-id indices >= NTID in use (observed periodically and at the end)
     touched_tids: std::collections::BTreeSet<usize>,
     observe_count: u64,
@@ -938,6 +948,9 @@ impl<'c> Eng<'c> {
         let via = self.via;
         let mut via_peer: Option<Option<SocketAddr>> = None;
         let via_peer_ref = &mut via_peer;
+        let then = self.via_then.take();
+        let mut then_done = false;
+        let then_done_ref = &mut then_done;
         let f = move |a: &mut StunAgent| {
             // optionally through a request handle's mut_agent()
             if let Some(h) = via {
@@ -947,6 +960,23 @@ impl<'c> Eng<'c> {
                     let r = f(handle.mut_agent());
                     let alive = handle.agent().request_transaction(id).is_some();
                     *via_peer_ref = Some(if alive { Some(handle.peer_address()) } else { None });
+                    if alive {
+                        match &then {
+                            Some(Op::Cancel(_)) => {
+                                handle.cancel();
+                                *then_done_ref = true;
+                            }
+                            Some(Op::CancelRetrans(_)) => {
+                                handle.cancel_retransmissions();
+                                *then_done_ref = true;
+                            }
+                            Some(Op::Configure { rto, n, last, rto_us, last_us, .. }) => {
+                                handle.configure_timeout(Duration::from_micros(rto * 1000 + (*rto_us % 1000) as u64), *n, Duration::from_micros(last * 1000 + (*last_us % 1000) as u64));
+                                *then_done_ref = true;
+                            }
+                            _ => {}
+                        }
+                    }
                     return r;
                 }
             }
@@ -965,6 +995,9 @@ impl<'c> Eng<'c> {
         });
         if via_peer.is_some() {
             self.via_peer = via_peer;
+        }
+        if then_done {
+            self.via_then_done = true;
         }
         match r {
             Ok((v, reads)) => {
@@ -1823,6 +1856,59 @@ impl<'c> Eng<'c> {
                     }
                 }
             }
+            Op::ViaThen { holder, inner, then } => {
+                let h = *holder as usize % NTID;
+                if matches!(**inner, Op::Poll(_) | Op::Response { .. } | Op::Incoming { .. }) && matches!(**then, Op::Cancel(_) | Op::CancelRetrans(_) | Op::Configure { .. }) {
+                    // the routed operation first; then two more polls at the same instant through the
+                    // handle, and after the second the follow-up on that same handle.  (The follow-up
+                    // is made after a poll whose answer cannot depend on the order in which
+                    // simultaneously due transactions are served: where polls drain an instant the
+                    // first of the two drains it and the second answers WaitUntil at once.)
+                    self.via = Some(h);
+                    self.via_peer = None;
+                    self.step_op(inner);
+                    self.step_op(&Op::Poll(PollAt::Now));
+                    self.via_peer = None;
+                    self.via_then = Some((**then).clone());
+                    self.via_then_done = false;
+                    self.step_op(&Op::Poll(PollAt::Now));
+                    self.via = None;
+                    self.via_then = None;
+                    self.via_peer = None;
+                    if std::mem::take(&mut self.via_then_done) {
+                        // the call was made on the handle (its transaction was still outstanding after
+                        // the routed call): the model follows, exactly as for the plain operations
+                        self.last_wait = None;
+                        let tcp = self.model.tcp;
+                        match &**then {
+                            Op::Cancel(_) | Op::CancelRetrans(_) => {
+                                let full = matches!(**then, Op::Cancel(_));
+                                self.rec(|| json!({"op": if full { "cancel" } else { "cancel_retrans" }, "tid": hex(&tid_bytes(h)), "found": true}));
+                                self.res.log.push(format!("{}@{} tid#{h} (same handle) -> true", if full { "cancel" } else { "cancel_retransmissions" }, ft(self.now as i128)));
+                                if let Some(tx) = self.model.txs.get_mut(&h) {
+                                    tx.send_cancelled = true;
+                                    if full {
+                                        tx.recv_cancelled = true;
+                                    }
+                                }
+                            }
+                            Op::Configure { rto, n, last, rto_us, last_us, .. } => {
+                                let (rto_total_us, last_total_us) = (rto * 1000 + (*rto_us % 1000) as u64, last * 1000 + (*last_us % 1000) as u64);
+                                let n = *n;
+                                self.rec(|| json!({"op": "configure", "tid": hex(&tid_bytes(h)), "rto_us": rto_total_us, "n": n, "last_us": last_total_us, "found": true}));
+                                self.res.log.push(format!("configure@{} tid#{h} ({rto_total_us}us,{n},{last_total_us}us) (same handle) -> true", ft(self.now as i128)));
+                                if let Some(tx) = self.model.txs.get_mut(&h) {
+                                    let (iv, fin) = configured_schedule_us(tcp, rto_total_us, n, last_total_us);
+                                    tx.iv = iv;
+                                    tx.fin = fin;
+                                }
+                            }
+                            _ => {}
+                        }
+                        self.ctx.count("handle-used-after-routing-a-call-through-it");
+                    }
+                }
+            }
             Op::Rewind(ms) => {
                 self.now = self.now.saturating_sub(ms * 1000);
                 self.last_wait = None;
@@ -1943,6 +2029,8 @@ fn run_history_inner(ctx: &mut Ctx, h: &History, cfg: &RunCfg) -> RunResult {
         local: local_of(h),
         via: None,
         via_peer: None,
+        via_then: None,
+        via_then_done: false,
         touched_tids: Default::default(),
         observe_count: 0,
         last_obs: String::new(),
@@ -2099,6 +2187,15 @@ pub fn gen_history(rng: &mut Rng, len: usize, ntid: u8, emphasis: &str) -> Histo
                     4 => Op::Send { kind: *rng.pick(&[MsgKind::Indication, MsgKind::Success, MsgKind::Error]), tid, dest: gen_dest(rng), seal: Sealing::None, payload: rng.below(300) as u16 },
                     _ => Op::Response { tid, from: rng.below(NCORE as u64) as u8, error: rng.chance(1, 2), seal: *rng.pick(&[RespSeal::CorruptSha1(0), RespSeal::Sha1(2), RespSeal::OddLen(0, 2)]), fp: false },
                 },
+                // a poll routed through a request handle, then the same handle reconfigures / cancels
+                34 => {
+                    let then = match rng.below(3) {
+                        0 => Op::Cancel(tid),
+                        1 => Op::CancelRetrans(tid),
+                        _ => gen_configure(rng, tid),
+                    };
+                    Op::ViaThen { holder: tid, inner: Box::new(gen_poll(rng)), then: Box::new(then) }
+                }
                 34..=84 => gen_poll(rng),
                 85..=88 => Op::CancelRetrans(tid),
                 89..=90 => Op::Cancel(tid),
@@ -2149,7 +2246,17 @@ pub fn gen_history(rng: &mut Rng, len: usize, ntid: u8, emphasis: &str) -> Histo
                         1 => Op::Response { tid: rng.below(ntid as u64) as u8, from: rng.below(NCORE as u64) as u8, error: false, seal: RespSeal::Unsigned, fp: false },
                         _ => Op::Incoming { request: true, tid, from: rng.below(NCORE as u64) as u8 },
                     };
-                    Op::Via { holder: rng.below(ntid as u64) as u8, inner: Box::new(inner) }
+                    let holder = rng.below(ntid as u64) as u8;
+                    if rng.chance(1, 2) {
+                        let then = match rng.below(3) {
+                            0 => Op::Cancel(holder),
+                            1 => Op::CancelRetrans(holder),
+                            _ => gen_configure(rng, holder),
+                        };
+                        Op::ViaThen { holder, inner: Box::new(inner), then: Box::new(then) }
+                    } else {
+                        Op::Via { holder, inner: Box::new(inner) }
+                    }
                 }
                 97 => Op::SendData { dest: rng.below(NCORE as u64) as u8, len: rng.below(1500) as u16 },
                 _ => {
